@@ -27,6 +27,25 @@ TOL = Fraction(1, 10 ** 9)
 TOL_M = Fraction(1, 10 ** 12)
 F = Fraction
 
+# signal scales of the "scaled" stream (strengthening after seeded change C06-m1): decimal factors
+# (the float product is what both sides get) and powers of two (float arithmetic commutes exactly
+# with them, so the exact regime carries over).  Small ones straddle the absolute tolerances that
+# numpy's closeness tests use (1e-8), machine epsilon and the smallest normal numbers' neighbourhood;
+# large ones the other end.
+DEC_SMALL = ["1e-9", "1e-9", "1e-9", "2e-9", "5e-9", "1e-8", "1e-10", "1e-12", "1e-15", "1e-17",
+             "1e-20", "1e-30", "1e-100", "3e-8", "1e-7", "1e-6", "1e-4"]
+DEC_LARGE = ["1e3", "1e6", "1e9", "1e12"]
+POW_SMALL = [-27, -27, -30, -30, -34, -40, -40, -50, -53, -60, -100, -24, -20, -10]
+POW_LARGE = [10, 20, 30, 40]
+
+
+TIGHT = 4   # mixed-scale cases: tolerance = TIGHT x noise_floor (observed worst error 1.2e-3 x noise_floor)
+
+
+def rat_bits(q):
+    q = F(q)
+    return max(abs(q.numerator).bit_length(), q.denominator.bit_length())
+
 
 # ----------------------------------------------------------------------------
 # case encoding (JSON-able)
@@ -191,6 +210,12 @@ class C06(Family):
         "IEEE arithmetic is exact on the generated integer / dyadic data of discrete-time cases whose "
         "largest model value is below 2^50 (exact equality required there); all other cases are "
         "compared to 1e-9 relative to the largest value of the array",
+        "signals scaled uniformly by a power of two: IEEE arithmetic commutes exactly with the scaling "
+        "(no overflow / underflow at 2^-100 ... 2^40), so the exact regime is decided on the unscaled "
+        "values; signals scaled uniformly otherwise: 1e-9 relative to max(signal scale, largest value of "
+        "the array); an ordinary signal mixed with a tiny / huge one: the tolerance is the rounding-error "
+        "estimate of the larger part (4 x 10^3 x steps x growth x scale x 2^-52; observed worst error "
+        "3e-4 of it in 16 500 cases), so a dropped contribution of the smaller signal is visible",
         "that expm returns the matrix exponential and that the first-order-hold series solves the ODE "
         "with piecewise linear input are not theorems (partial); the block structure of the powers of "
         "the augmented matrix is",
@@ -204,8 +229,13 @@ class C06(Family):
             "points, non-zero start, spacing = 1,2,3,4 x sampling time; inputs as scalar / 1-D / 2-D, "
             "int / float; initial states as scalar / 1-D / column; the four response functions with and "
             "without input/output selection; a malformed stream (wrong shapes, unequal spacing, spacing "
-            "not a multiple). Non-trivial: >= 3 time points and a non-zero input or initial state and a "
-            "system with states; distinct = distinct canonical serialisation")
+            "not a multiple). Appended streams: signals (input and/or initial state) scaled by 1e-9 ... "
+            "1e-100, 2^-10 ... 2^-100, 1e3 ... 1e12, 2^10 ... 2^40, uniformly or mixed with ordinary ones; "
+            "sparse / cancelling inputs (one non-zero sample, zero head, zero first sample, one active "
+            "channel, zero-sum channels, channels cancelling each other), from rest; the same dynamics in "
+            "other time units (grid and sampling time x 2^-40 ... 2^20, 1e-12 ... 1e6, 1/3, 1/7, 7/10 ..., "
+            "continuous A and B divided accordingly). Non-trivial: >= 3 time points and a non-zero input or "
+            "initial state and a system with states; distinct = distinct canonical serialisation")
 
     def __init__(self):
         self._line_cache = {}
@@ -372,7 +402,208 @@ class C06(Family):
         c["malformed"] = kind
         return c
 
+    # ---- signals of unusual magnitude / sparsity (added after seeded change C06-m1) ----
+    def scale_arr(self, a, dec=None, k=None):
+        """the array argument with every value multiplied by float(dec) (float product: the token
+        is the exact value of the float the implementation receives) or by 2^k (exact)."""
+        def sv(x):
+            q = F(x)
+            if k is not None:
+                return tok(q * F(2) ** k)
+            return tok(fr(float(q) * float(dec)))
+        if a[0] == "S":
+            return ["S", sv(a[1]), "npfloat" if a[2] == "npfloat" else "float"]
+        dtype = "list" if a[-1] == "list" else "float"
+        if a[0] == "V":
+            return ["V", [sv(x) for x in a[1]], dtype]
+        return ["M", a[1], a[2], [sv(x) for x in a[3]], dtype]
+
+    def nonzero_arr(self, rng, a):
+        if any(v != 0 for v in arr_vals(a)) or not arr_vals(a):
+            return a
+        a = [x if not isinstance(x, list) else list(x) for x in a]
+        if a[0] == "S":
+            a[1] = str(rng.choice([-2, -1, 1, 2]))
+        else:
+            vals = a[1] if a[0] == "V" else a[3]
+            vals[rng.randrange(len(vals))] = str(rng.choice([-2, -1, 1, 2]))
+        return a
+
+    def base_case(self, rng, cont, op="forced"):
+        """an ordinary well-formed case with a given time grid and a non-zero input"""
+        if cont:
+            c = self.gen_cont_forced(rng)
+        else:
+            c = self.gen_disc_forced(rng)
+        if op == "initial":
+            while c["T"] is None:
+                c = self.gen_disc_forced(rng)
+            n = c["sys"]["n"]
+            d = {"op": "initial", "sys": c["sys"], "T": c["T"],
+                 "X0": ["V", [str(rng.randint(-3, 3)) for _ in range(n)], rng.choice(["float", "list"])],
+                 "input": -1, "output": rng.choice([-1, -1, rng.randrange(c["sys"]["p"])])}
+            if c.get("exactexp"):
+                d["exactexp"] = True
+            d["X0"] = self.nonzero_arr(rng, d["X0"])
+            return d
+        c["U"] = self.nonzero_arr(rng, c["U"])
+        return c
+
+    def gen_scaled(self, rng):
+        """signals (input and/or initial state) of unusual magnitude: nano-units and below, or
+        very large; uniformly scaled (the response scales with them: tolerance relative to the
+        signal scale, exact for powers of two) or mixed with ordinary ones (tolerance = the
+        rounding-error estimate of the ordinary part, so that a dropped tiny contribution shows)."""
+        cont = rng.random() < 0.6
+        op = "initial" if rng.random() < 0.12 else "forced"
+        c = self.base_case(rng, cont, op)
+        small = rng.random() < 0.8
+        if rng.random() < 0.45:
+            k, dec = rng.choice(POW_SMALL if small else POW_LARGE), None
+        else:
+            k, dec = None, rng.choice(DEC_SMALL if small else DEC_LARGE)
+        info = {"kind": "pow2" if dec is None else "dec", "by": k if dec is None else dec}
+        if op == "initial":
+            c["X0"] = self.scale_arr(c["X0"], dec, k)
+            info["mode"] = "x0"
+        else:
+            r = rng.random()
+            n = c["sys"]["n"]
+            if r < 0.45 or n == 0:
+                c["U"] = self.scale_arr(c["U"], dec, k)
+                c["X0"] = ["S", "0", "float"] if rng.random() < 0.7 else ["V", ["0"] * n, "float"]
+                info["mode"] = "u"
+            elif r < 0.75:
+                c["U"] = self.scale_arr(c["U"], dec, k)
+                c["X0"] = self.scale_arr(self.nonzero_arr(rng, c["X0"]), dec, k)
+                info["mode"] = "both"
+            elif r < 0.92:
+                c["U"] = self.scale_arr(c["U"], dec, k)
+                c["X0"] = self.nonzero_arr(rng, c["X0"])
+                info["mode"] = "mixed-u"
+            else:
+                c["X0"] = self.scale_arr(self.nonzero_arr(rng, c["X0"]), dec, k)
+                info["mode"] = "mixed-x0"
+        c["scale"] = info
+        return c
+
+    def gen_sparse(self, rng):
+        """inputs that are zero almost everywhere / cancel: one non-zero sample (possibly the
+        last, possibly tiny), zero head, zero first sample, one active channel, zero-sum channels,
+        channels that cancel each other.  From rest most of the time, so that the whole response
+        comes from the few non-zero samples."""
+        cont = rng.random() < 0.6
+        c = self.base_case(rng, cont)
+        s = c["sys"]
+        m = s["m"]
+        if c["T"] is not None:
+            k = len(c["T"]["vals"])
+        else:
+            k = len(c["U"][1]) if c["U"][0] == "V" else (c["U"][2] if c["U"][0] == "M" else rng.choice([2, 3, 4, 6]))
+        nz = lambda: rng.choice([-3, -2, -1, 1, 2, 3])
+        U = [[0] * k for _ in range(m)]
+        pat = rng.choice(["single", "single", "last", "head", "first0", "channel", "zerosum", "cancel"])
+        if pat == "single":
+            U[rng.randrange(m)][rng.randrange(k)] = nz()
+        elif pat == "last":
+            U[rng.randrange(m)][k - 1] = nz()
+        elif pat == "head":
+            j0 = rng.randrange(1, k)
+            for i in range(m):
+                for j in range(j0, k):
+                    U[i][j] = rng.randint(-3, 3)
+            U[rng.randrange(m)][rng.randrange(j0, k)] = nz()
+        elif pat == "first0":
+            for i in range(m):
+                for j in range(1, k):
+                    U[i][j] = nz()
+        elif pat == "channel":
+            i = m - 1 if rng.random() < 0.6 else rng.randrange(m)
+            for j in range(k):
+                U[i][j] = rng.randint(-3, 3)
+            U[i][rng.randrange(k)] = nz()
+        elif pat == "zerosum":
+            for i in range(m):
+                j1, j2 = rng.sample(range(k), 2)
+                v = nz()
+                U[i][j1], U[i][j2] = v, -v
+        else:   # channels cancel each other at every sample (needs two inputs; else alternating)
+            for j in range(k):
+                v = rng.randint(-3, 3)
+                if m >= 2:
+                    U[0][j], U[m - 1][j] = v, -v
+                else:
+                    U[0][j] = v * (1 if j % 2 == 0 else -1)
+            if not any(x for r in U for x in r):
+                U[0][0] = 1
+                if m >= 2:
+                    U[m - 1][0] = -1
+        flat = [str(x) for r in U for x in r]
+        if m == 1 and rng.random() < 0.5:
+            c["U"] = ["V", flat, rng.choice(["int", "float", "list"])]
+        else:
+            c["U"] = ["M", m, k, flat, rng.choice(["int", "float", "list"])]
+        n = s["n"]
+        if rng.random() < 0.7:
+            c["X0"] = ["S", "0", "float"]
+        c["sparse"] = pat
+        if rng.random() < 0.3:
+            small = rng.random() < 0.85
+            if rng.random() < 0.5:
+                k2, dec = rng.choice(POW_SMALL if small else POW_LARGE), None
+            else:
+                k2, dec = None, rng.choice(DEC_SMALL if small else DEC_LARGE)
+            c["U"] = self.scale_arr(c["U"], dec, k2)
+            if any(v != 0 for v in arr_vals(c["X0"])):
+                c["X0"] = self.scale_arr(c["X0"], dec, k2)
+                mode = "both"
+            else:
+                mode = "u"
+            c["scale"] = {"kind": "pow2" if dec is None else "dec", "by": k2 if dec is None else dec,
+                          "mode": mode}
+        return c
+
+    def gen_timescaled(self, rng):
+        """the same dynamics in other time units (ms, us, ns, 2^-k s, ks): the time grid and the
+        sampling time multiplied by s, continuous-time A and B divided by s.  Well-formed grids
+        only (the closeness tests of the grid checks are modelled as exact)."""
+        cont = rng.random() < 0.5
+        c = self.base_case(rng, cont)
+        while c["T"] is None:
+            c = self.base_case(rng, cont)
+        r = rng.random()
+        if r < 0.4:
+            k = rng.choice([-10, -20, -20, -30, -30, -40, 10, 20])
+            s, info = F(2) ** k, {"kind": "pow2", "by": k}
+        elif r < 0.55:
+            # ordinary size, but not a binary fraction: steps of a third, a seventh, ...
+            d = rng.choice(["1/3", "1/3", "1/7", "7/10", "3/7", "1/9", "11/3"])
+            s, info = F(d), {"kind": "rat", "by": d}
+        else:
+            d = rng.choice(["1e-3", "1e-6", "1e-6", "1e-9", "1e-9", "1e-12", "1e3", "1e6"])
+            s, info = F(d), {"kind": "dec", "by": d}
+        sy = dict(c["sys"])
+        c["T"] = {"vals": [tok(F(v) * s) for v in c["T"]["vals"]], "form": c["T"]["form"]}
+        if sy["dt"][0] == "D":
+            sy["dt"] = "D" + tok(F(sy["dt"][1:]) * s)
+        elif sy["dt"] == "C":
+            sy["A"] = [tok(F(x) / s) for x in sy["A"]]
+            sy["B"] = [tok(F(x) / s) for x in sy["B"]]
+        c["sys"] = sy
+        c["tscale"] = info
+        return c
+
     def generate(self, rng, tier):
+        out = self.generate_base(rng, tier)
+        # appended (the streams above are unchanged for a given seed)
+        n2 = 170 if tier == "quick" else 4000
+        for i in range(n2):
+            out.append(self.gen_scaled(rng) if i % 5 < 3 else self.gen_sparse(rng))
+        for i in range(40 if tier == "quick" else 1000):
+            out.append(self.gen_timescaled(rng))
+        return out
+
+    def generate_base(self, rng, tier):
         n = 500 if tier == "quick" else 15000
         out = []
         for i in range(n):
@@ -390,7 +621,17 @@ class C06(Family):
     def corpus(self):
         s1 = {"n": 1, "p": 1, "m": 1, "dt": "D1/10", "A": ["1/2"], "B": ["1"], "C": ["1"], "D": ["0"]}
         grid = lambda h, k: {"vals": [tok(F(h) * i) for i in range(k)], "form": "exact"}
+        s2 = dict(s1, dt="T")
         return [
+            # the dlsim sample count once more, for dt=True / None (the system is run at the spacing
+            # of the grid): 8 points, spacing 1/3 -> (T[-1]-T[0]) / ((T[-1]-T[0])/7) < 7 in floats
+            # (np.arange(8) * (1/3), np.arange(32) * 0.3)
+            {"op": "forced", "sys": s2, "T": dict(grid(F(1, 3), 8), form="mult"), "U": ["V", ["1"] * 8, "float"],
+             "X0": ["S", "0", "float"]},
+            {"op": "forced", "sys": dict(s1, dt="N"), "T": dict(grid(F(3, 10), 32), form="mult"),
+             "U": ["V", ["1"] * 32, "float"], "X0": ["S", "0", "float"]},
+            {"op": "step", "sys": s2, "T": dict(grid(F(1, 3), 8), form="mult"), "X0": ["S", "0", "float"],
+             "input": -1, "output": -1},
             # DESIGN 6.2: decimated grid on a non-dyadic sampling time
             {"op": "forced", "sys": s1, "T": grid(F(1, 5), 4), "U": ["V", ["1"] * 4, "float"], "X0": ["S", "0", "float"]},
             {"op": "forced", "sys": s1, "T": grid(F(1, 5), 3), "U": ["V", ["1"] * 3, "float"], "X0": ["S", "0", "float"]},
@@ -565,12 +806,28 @@ class C06(Family):
     def regime(self, case, model):
         """E: exact equality required"""
         s = case["sys"]
-        if s["dt"] == "C" or "ok" not in model or model.get("bits", 99) > 50:
+        if s["dt"] == "C" or "ok" not in model:
+            return "T"
+        sc = case.get("scale")
+        unit = F(1)
+        if sc:
+            # signals scaled by a power of two, uniformly: IEEE arithmetic commutes exactly with the
+            # scaling (no overflow / underflow at these sizes), so the case is exact iff the
+            # unscaled one is; judge the unscaled values.  Everything else scaled: regime T.
+            if sc["kind"] != "pow2" or sc["mode"].startswith("mixed"):
+                return "T"
+            unit = F(2) ** (-sc["by"])
+            bits = max([0] + [rat_bits(F(v) * unit) for tr in model["ok"]["traces"]
+                              for nm in ("x", "y", "u") if tr.get(nm) for row in tr[nm] for v in row])
+            sig = [v * unit for key in ("U", "X0") if key in case for v in arr_vals(case[key])]
+            if bits > 50 or any(abs(v) > 8 or v.denominator > 2 for v in sig):
+                return "T"
+        elif model.get("bits", 99) > 50:
             return "T"
         vals = [F(x) for k in "ABCD" for x in s[k]]
         for key in ("U", "X0"):
             if key in case:
-                vals += arr_vals(case[key])
+                vals += [v * unit for v in arr_vals(case[key])]
         if case["T"] is not None:
             vals += [F(x) for x in case["T"]["vals"]]
         if s["dt"][0] == "D":
@@ -582,10 +839,50 @@ class C06(Family):
             return "T"
         return "E"
 
+    def signal_class(self, case):
+        sc = case.get("scale")
+        ts = case.get("tscale")
+        if ts:
+            big = (ts["by"] > 0) if ts["kind"] == "pow2" else (float(F(ts["by"])) > 1)
+            return "time-units-" + ("large" if big else "small")
+        if not sc:
+            return "sparse" if case.get("sparse") else "ordinary"
+        big = (sc["by"] > 0) if sc["kind"] == "pow2" else (float(sc["by"]) > 1)
+        cls = ("mixed-" if sc["mode"].startswith("mixed") else "") + ("large" if big else "tiny")
+        return cls + ("-sparse" if case.get("sparse") else "")
+
+    def signal_scales(self, case):
+        """(largest |value| of U, of X0), None where the argument is absent or identically zero"""
+        out = []
+        for key in ("U", "X0"):
+            v = [abs(x) for x in arr_vals(case[key])] if key in case else []
+            out.append(max(v) if v and max(v) != 0 else None)
+        return out
+
+    def floor_scale(self, case):
+        """the magnitude below which differences are not resolved, relative to which TOL applies:
+        1 for ordinary cases (as before); for cases of the scaled stream the scale of the signals
+        (uniform scaling), resp. of the *smaller* signal (mixed: ordinary initial state and tiny
+        input or vice versa - there the tolerance is in effect the rounding-error estimate
+        `noise_floor` of the ordinary part).  Returns (scale, tight)."""
+        sc = case.get("scale")
+        if not sc:
+            return F(1), False
+        su, sx = self.signal_scales(case)
+        have = [v for v in (su, sx) if v is not None]
+        if not have:
+            return F(1), False
+        if sc["mode"].startswith("mixed") and len(have) == 2:
+            return min(have), True
+        return max(have), False
+
     def features(self, case, kind, impl=None):
         inc = self.inc_of(case)
         feat = {"kind": kind, "op": case["op"], "timebase": self.timebase(case),
                 "inc": "1" if inc == 1 else (">1" if inc.denominator == 1 and inc > 1 else "non-integer")}
+        sig = self.signal_class(case)
+        if sig != "ordinary":
+            feat["signal"] = sig
         if impl is not None and "err" in impl:
             feat["exc"] = impl["exc"].split(":")[0]
             feat["msg"] = re.sub(r"[0-9]+", "#", impl["exc"].split(":", 1)[1].strip())[:60]
@@ -611,16 +908,21 @@ class C06(Family):
             Ad = scipy.linalg.expm(A * h)
             steps = k - 1
             g = max(1.0, np.abs(Ad).sum(axis=1).max()) ** steps
-            bsc = max(1.0, np.abs(B).sum(axis=1).max() * max(1.0, abs(h)) * max(1.0, np.abs(Ad).sum(axis=1).max()))
+            # (B enters as the integral of exp(A s) B over a step: ~ |B| h; h is replaced by 1 when
+            # smaller, except for systems in other time units, where |B| ~ 1/h)
+            hh = abs(h) if case.get("tscale") else max(1.0, abs(h))
+            bsc = max(1.0, np.abs(B).sum(axis=1).max() * hh * max(1.0, np.abs(Ad).sum(axis=1).max()))
         else:
             inc = self.inc_of(case)
             steps = (k - 1) * (int(inc) if inc.denominator == 1 and inc >= 1 else 1)
             g = max(1.0, np.abs(A).sum(axis=1).max()) ** steps
             bsc = max(1.0, np.abs(B).sum(axis=1).max())
-        sin = 1.0
+        sin = 0.0 if case.get("scale") else 1.0
         for key in ("U", "X0"):
             if key in case:
                 sin = max([sin] + [abs(float(x)) for x in arr_vals(case[key])])
+        if sin == 0.0:
+            sin = 1.0
         if case["op"] == "impulse":
             sin = max(sin, 10.0)
         est = 1000.0 * steps * g * sin * bsc * 2.0 ** -52
@@ -628,7 +930,7 @@ class C06(Family):
             est = 1e300
         return F(est)
 
-    def arrays_differ(self, a, b, exact_regime, floor=F(0)):
+    def arrays_differ(self, a, b, exact_regime, floor=F(0), fs=F(1), tight=False):
         """a, b: lists over time of token lists.  Returns a description or None."""
         if a is None or b is None:
             return None if a is None and b is None else "one side has no array"
@@ -640,7 +942,7 @@ class C06(Family):
                     return "time index %d: implementation %s, exact %s" % (j, r, s)
             return None
         fb = [[F(x) for x in s] for s in b]
-        sc = max([F(1)] + [abs(x) for s in fb for x in s])
+        sc = fs if tight else max([fs] + [abs(x) for s in fb for x in s])
         for j, (r, s) in enumerate(zip(a, fb)):
             for xa, xb in zip(r, s):
                 if abs(F(xa) - xb) > max(TOL * sc, floor):
@@ -665,7 +967,10 @@ class C06(Family):
             if a["t"] != impl["Tin"]:
                 return Verdict(VIOLATES, "returned times %s differ from the requested %s" % (a["t"], impl["Tin"]),
                                self.features(case, "time", impl))
-        d = self.arrays_differ([a["t"]], [b["t"]], False)
+        fst = F(1)
+        if case.get("tscale"):
+            fst = max([abs(F(x)) for x in b["t"]] + [F(0)]) or F(1)
+        d = self.arrays_differ([a["t"]], [b["t"]], False, F(0), min(fst, F(1)))
         if d is not None:
             return Verdict(VIOLATES, "time vector: " + d, self.features(case, "time", impl))
         if len(a["traces"]) != len(b["traces"]):
@@ -673,11 +978,16 @@ class C06(Family):
                            self.features(case, "traces", impl))
         ex = self.regime(case, model) == "E"
         floor = F(0) if ex else self.noise_floor(case)
+        fs, tight = self.floor_scale(case)
+        if tight and floor == 0:
+            tight = False
+        if tight:
+            floor = floor * TIGHT     # the floor is the whole tolerance here: keep >= 10^3 margin
         csc = max([1.0] + [abs(float(F(x))) for x in case["sys"]["C"]]) * max(1, case["sys"]["n"])
         for i, (ta, tb) in enumerate(zip(a["traces"], b["traces"])):
             for nm, what in (("x", "states"), ("y", "outputs"), ("u", "inputs")):
                 fl = floor if nm == "x" else (floor * F(csc) if nm == "y" else F(0))
-                d = self.arrays_differ(ta[nm], tb[nm], ex, fl)
+                d = self.arrays_differ(ta[nm], tb[nm], ex, fl, fs, tight and nm != "u")
                 if d is not None:
                     kind = "shape" if d.startswith("shape") else "value-" + what
                     return Verdict(VIOLATES, "%s of trace %d: %s" % (what, i, d), self.features(case, kind, impl))
@@ -717,6 +1027,10 @@ class C06(Family):
         if "ok" in model and st.get("regime") == "T":
             try:
                 big = max([F(1)] + [abs(F(v)) for tr in model["ok"]["traces"] for row in tr["x"] for v in row])
+                fs, tight = self.floor_scale(case)
+                if case.get("scale"):
+                    big = fs if tight else max([fs] + [abs(F(v)) for tr in model["ok"]["traces"]
+                                                       for row in tr["x"] for v in row])
                 st["tolerance"] = "1e-9" if self.noise_floor(case) <= TOL * big else "conditioning-floor"
             except Exception:
                 pass
@@ -730,6 +1044,13 @@ class C06(Family):
             st["X0form"] = case["X0"][0]
         if case.get("malformed"):
             st["malformed"] = case["malformed"]
+        st["signal"] = self.signal_class(case)
+        if case.get("scale"):
+            st["scale"] = "%s:%s:%s" % (case["scale"]["kind"], case["scale"]["by"], case["scale"]["mode"])
+        if case.get("sparse"):
+            st["sparse"] = case["sparse"]
+        if case.get("tscale"):
+            st["tscale"] = "%s:%s" % (case["tscale"]["kind"], case["tscale"]["by"])
         if "err" in model and "err" in impl:
             st["errkind_equal"] = impl["err"] == model["err"]
         return st
